@@ -96,6 +96,11 @@ def make_cand(L, R, names, with_id=True):
     return pd.DataFrame(pairs, columns=['l_k', 'r_k'])     # a hand-built candidate set: just the two keys
 
 
+def bag_sim(x, y):
+    """a similarity that sees repeated tokens (so that set vs bag mode of the tokenizer matters)"""
+    return float(sum(1 for t in x if t in y) + sum(1 for t in y if t in x)) / max(len(x) + len(y), 1)
+
+
 def run_spec(spec, L, R, names, tok, cand=None):
     """Executes one API call; returns the result or the exception instance.  `cand`: the candidate
     set object to use for filter_candset / apply_matcher (shared by the calls of a history)."""
@@ -127,7 +132,7 @@ def run_spec(spec, L, R, names, tok, cand=None):
             if spec['kind'] == 'filter_candset':
                 return f.filter_candset(cand, 'l_k', 'r_k', L, R, lkey, rkey, ljoin, rjoin, spec['njobs'], False)
             return ssj.apply_matcher(cand, 'l_k', 'r_k', L, R, lkey, rkey, ljoin, rjoin, tok,
-                                     sm.Jaccard().get_raw_score, 0.3, '>=', spec['allow_missing'],
+                                     bag_sim, 0.3, '>=', spec['allow_missing'],
                                      spec['l_out'], spec['r_out'], 'l_', 'r_', True, spec['njobs'], False)
     except Exception as e:  # noqa
         e._tb = traceback.format_exc()
@@ -156,7 +161,41 @@ def run_histories(seed, n_hist, hist_len=6):
         specs = [gen_spec(rng, with_ed, names, L.columns, R.columns) for _ in range(hist_len)]
         cands = {True: make_cand(L, R, names, True), False: make_cand(L, R, names, False)}
         cands0 = {k_: v_.copy(deep=True) for k_, v_ in cands.items()}
+        user_actions = []
         for k, spec in enumerate(specs):
+            # between two API calls the USER may reconfigure the shared tokenizer or edit a shared
+            # table in place; the next call must see exactly the objects' current state (no result
+            # may come from state remembered by an earlier call).  The isolated run below gets fresh
+            # copies of the same current state.
+            if k > 0 and rng.random() < 0.3:
+                act = rng.choice(['toggle_return_set', 'edit_left_cell', 'edit_right_cell', 'change_tokenizer_param'])
+                if act == 'toggle_return_set':
+                    tok.set_return_set(not tok.get_return_set())
+                    tok0.set_return_set(tok.get_return_set())
+                elif act == 'change_tokenizer_param':
+                    if hasattr(tok, 'qval') and not with_ed:
+                        q_new = 3 if tok.qval == 2 else 2
+                        tok.set_qval(q_new)
+                        tok0.set_qval(q_new)
+                    elif type(tok).__name__ == 'DelimiterTokenizer':
+                        ds = set(tok.get_delim_set())
+                        ds = (ds - {','}) if ',' in ds and len(ds) > 1 else (ds | {','})
+                        tok.set_delim_set(ds)
+                        tok0.set_delim_set(ds)
+                    else:
+                        act = 'none'
+                else:
+                    tb, tb0, col = (L, L0, names[1]) if act == 'edit_left_cell' else (R, R0, names[3])
+                    present = [i_ for i_ in range(len(tb)) if isinstance(tb[col].iloc[i_], str)]
+                    if present:
+                        i_ = rng.choice(present)
+                        other = rng.choice(present)
+                        v = tb[col].iloc[other] + (' ' + tb[col].iloc[i_] if rng.random() < 0.5 else '')
+                        tb.iloc[i_, tb.columns.get_loc(col)] = v
+                        tb0.iloc[i_, tb0.columns.get_loc(col)] = v
+                    else:
+                        act = 'none'
+                user_actions.append((k, act))
             sl, sr, st = snapshot(L), snapshot(R), tok_state(tok)
             cand = cands[spec.get('cand_with_id', True)]
             sc = snapshot(cand)
@@ -172,7 +211,7 @@ def run_histories(seed, n_hist, hist_len=6):
                 dist[kk][str(vv)] = dist[kk].get(str(vv), 0) + 1
             desc = {'history': h, 'step': k, 'spec': spec, 'tokenizer': kind, 'return_set_at_entry': rs0,
                     'names': list(names), 'ltable': L0.to_dict(orient='split'), 'rtable': R0.to_dict(orient='split'),
-                    'previous_specs': specs[:k]}
+                    'previous_specs': specs[:k], 'user_actions_before': list(user_actions)}
             if isinstance(res, Exception):
                 problems.append(dict(desc, what='valid call raised %s: %s' % (type(res).__name__, res),
                                      cls='exception', tb=getattr(res, '_tb', '')[-800:]))
@@ -290,7 +329,7 @@ def run_late_exceptions(seed, n):
 # ---------------------------------------------------------------- C15: invalid-argument matrix
 INVALID_KINDS = ['ltable_not_df', 'rtable_not_df', 'bad_tokenizer', 'unknown_l_key', 'unknown_r_key',
                  'unknown_l_attr', 'unknown_r_attr', 'unknown_l_out', 'unknown_r_out', 'numeric_l_attr',
-                 'numeric_r_attr', 'dup_l_key', 'missing_r_key', 'threshold_low', 'threshold_high',
+                 'numeric_r_attr', 'dup_l_key', 'missing_r_key', 'threshold_low', 'threshold_neg_frac', 'threshold_high',
                  'bad_op', 'non_qgram_for_ed', 'unknown_measure']
 EXPECT = {'ltable_not_df': TypeError, 'rtable_not_df': TypeError, 'bad_tokenizer': TypeError,
           'unknown_measure': TypeError}
@@ -366,7 +405,10 @@ def invalid_call(rng, target, kind_inv):
         R['id'] = R['id'].astype(object)
         R.loc[R.index[0], 'id'] = None
     elif k == 'threshold_low':
-        a['t'] = {'OVERLAP': rng.choice([0, -1]), 'EDIT_DISTANCE': -1}.get(m, rng.choice([0, -0.5, 0.0]))
+        a['t'] = {'OVERLAP': rng.choice([0, -1, -0.5, -1e-9]), 'EDIT_DISTANCE': rng.choice([-1, -0.5, -1e-9, -1.5])}.get(m, rng.choice([0, -0.5, 0.0, -1e-9]))
+    elif k == 'threshold_neg_frac':
+        # strictly between -1 and 0: truncation toward zero (int(t)) would turn it into a valid 0
+        a['t'] = rng.choice([-0.5, -1e-9, -0.999])
     elif k == 'threshold_high':
         if m in ('OVERLAP', 'EDIT_DISTANCE'):
             return None
@@ -385,7 +427,7 @@ def invalid_call(rng, target, kind_inv):
     table_kinds = ('ltable_not_df', 'rtable_not_df', 'unknown_l_key', 'unknown_r_key', 'unknown_l_attr',
                    'unknown_r_attr', 'unknown_l_out', 'unknown_r_out', 'numeric_l_attr', 'numeric_r_attr',
                    'dup_l_key', 'missing_r_key')
-    init_kinds = ('bad_tokenizer', 'threshold_low', 'threshold_high', 'bad_op', 'non_qgram_for_ed', 'unknown_measure')
+    init_kinds = ('bad_tokenizer', 'threshold_low', 'threshold_neg_frac', 'threshold_high', 'bad_op', 'non_qgram_for_ed', 'unknown_measure')
     if target[0] == 'filter_init' and k in table_kinds:
         return None
     if target[0] in ('filter_tables', 'filter_candset') and k in init_kinds:
@@ -394,7 +436,7 @@ def invalid_call(rng, target, kind_inv):
         return None
     if target[0] == 'filter_candset' and k in ('unknown_l_out', 'unknown_r_out'):
         return None
-    if target[0] == 'apply_matcher' and k in ('threshold_low', 'threshold_high', 'non_qgram_for_ed',
+    if target[0] == 'apply_matcher' and k in ('threshold_low', 'threshold_neg_frac', 'threshold_high', 'non_qgram_for_ed',
                                               'unknown_measure', 'numeric_l_attr', 'numeric_r_attr'):
         return None
     if target[0] == 'apply_matcher' and k == 'bad_op':
